@@ -35,6 +35,7 @@ pub fn stage_regions(stage: &str) -> Vec<(String, usize, usize)> {
         v.push(("ber".to_string(), 7, f.len() - 7));
         v.push(("gcc".to_string(), f.len() - gcc.len(), gcc.len()));
         v.push(("blocks".to_string(), f.len() - blocks.len(), blocks.len()));
+        v.push(("berlen".to_string(), 9, 0));
     } else if stage.starts_with("licence") {
         for (n, s) in faults::regions(&f) { if n == "user" { v.push(("user".to_string(), s, f.len() - s)); v.push(("lic".to_string(), s + 4, f.len() - s - 4)); } }
     } else if stage != "cc" {
@@ -53,6 +54,15 @@ fn faulted(stage: &str, layer: &str, fs: &[Value], uid: u16, chan: u16) -> (Vec<
         (_, "frame") => { let mut f = orig[..start].to_vec(); f.extend(&region); f }
         ("cresp", "blocks") => rp::x224_data(&rp::mcs_connect_response_raw(&rp::gcc_conference_create_response(&region))),
         ("cresp", "gcc") => rp::x224_data(&rp::mcs_connect_response_raw(&region)),
+        // the length octets of the outer BER element replaced by the region (another length form / another value)
+        ("cresp", "berlen") => {
+            let raw = orig[7..].to_vec();
+            let k = if raw[2] < 0x80 { 1 } else { 1 + (raw[2] & 0x7f) as usize };
+            let mut v = raw[..2].to_vec();
+            v.extend(&region);
+            v.extend(&raw[2 + k..]);
+            rp::x224_data(&v)
+        }
         (_, "ber") | (_, "mcs") => rp::x224_data(&region),
         (_, "user") => rp::sdin(1003, &region),
         (_, "lic") => { let mut u = orig[start - 4..start].to_vec(); u.extend(&region); rp::sdin(1003, &u) }
